@@ -15,6 +15,7 @@ import VsbModel.Model.SelfContained
 import VsbModel.Model.FsTrace
 import VsbModel.Model.Proto
 import VsbModel.Model.Upload
+import VsbModel.Model.ListProto
 
 /-!
 Line-protocol driver for the executable models: one request per line `<op> <json>`, one JSON
@@ -644,6 +645,28 @@ def opProto (j : Json) : Except String Json := do
     ("ns", Json.arr (o.run.srv.ns.map (fun e => Json.arr #[(e.1 : Json), natsJson e.2])).toArray),
     ("renamed", match o.run.renamed with | some d => natsJson d | none => Json.null)])
 
+/-! ## listproto (C06) -/
+open Vsb.ListProto Vsb.Proto in
+/-- `listproto`: {provider, page_size, entries: [..]|null, script:[..]} → {result: ok|notfound|err, entries, requests} -/
+def opListProto (j : Json) : Except String Json := do
+  let prov ← (← j.getObjVal? "provider").getStr?
+  let ps ← (← j.getObjVal? "page_size").getNat?
+  let script := ((← (← j.getObjVal? "script").getArr?).toList.map (fun x => parseResp (x.getStr?.toOption.getD "ok")))
+  let sc : Nat → Resp := fun k => script.getD k .ok
+  let dir ← match optField j "entries" with
+    | .null => pure none
+    | v => do pure (some (← natList v))
+  let r := match prov with
+    | "dropbox" => dropboxList ps sc dir
+    | "yandex" => yandexList ps sc dir
+    | _ => match dir with
+      | some l => googleChildren ps sc 0 l
+      | none => .notFound 0
+  pure (match r with
+    | .ok es n => Json.mkObj [("result", "ok"), ("entries", natsJson es), ("requests", n)]
+    | .notFound n => Json.mkObj [("result", "notfound"), ("requests", n)]
+    | .err n => Json.mkObj [("result", "err"), ("requests", n)])
+
 def dispatch (op : String) (j : Json) : Except String Json :=
   match op with
   | "split" => opSplit j
@@ -660,6 +683,7 @@ def dispatch (op : String) (j : Json) : Except String Json :=
   | "tracecheck" => opTraceCheck j
   | "runops" => opRunOps j
   | "proto" => opProto j
+  | "listproto" => opListProto j
   | "cfgload" => opCfgload j
   | "cfgpath" => opCfgpath j
   | "verify" => opVerify j
